@@ -13,11 +13,11 @@
     (and (=> (< (cmpS v w) 0) (< (strCmp (entryKey c f v id) (valKey c f w)) 0))
          (=> (= (cmpS v w) 0) (= (entryKey c f v id) (scat (valKey c f w) id)))
          (=> (> (cmpS v w) 0) (> (strCmp (entryKey c f v id) (valKey c f w)) 0))))
-  :pattern ((entryKey c f v id) (valKey c f w)))))
+  :pattern ((strCmp (entryKey c f v id) (valKey c f w))) :pattern ((strCmp (valKey c f w) (entryKey c f v id))) :pattern ((hasPrefix (entryKey c f v id) (valKey c f w))))))
 ; a greater value stays greater whatever follows the smaller value's key (self-delimiting codes)
 (assert (forall ((c Str) (f Str) (v Val) (w Val) (id Str) (s Str)) (! (=> (and (kx v) (kx w) (> (cmpS v w) 0))
     (> (strCmp (entryKey c f v id) (scat (valKey c f w) s)) 0))
-  :pattern ((entryKey c f v id) (scat (valKey c f w) s)))))
+  :pattern ((strCmp (entryKey c f v id) (scat (valKey c f w) s))) :pattern ((strCmp (scat (valKey c f w) s) (entryKey c f v id))))))
 ; every entry of the index lies below "<index key space>\xff" (the byte after the key space is 't')
 (assert (forall ((c Str) (f Str) (v Val) (id Str)) (! (< (strCmp (entryKey c f v id) (scat (idxKS c f) (sbyte1 #xff))) 0) :pattern ((entryKey c f v id) (scat (idxKS c f) (sbyte1 #xff))))))
 ; value keys alone are ordered like the values
@@ -25,7 +25,7 @@
     (and (=> (< (cmpS v w) 0) (< (strCmp (valKey c f v) (valKey c f w)) 0))
          (=> (= (cmpS v w) 0) (= (valKey c f v) (valKey c f w)))
          (=> (> (cmpS v w) 0) (> (strCmp (valKey c f v) (valKey c f w)) 0))))
-  :pattern ((valKey c f v) (valKey c f w)))))
+  :pattern ((strCmp (valKey c f v) (valKey c f w))))))
 ; an entry key is the value key followed by the id; stored ids have 36 bytes
 (assert (forall ((c Str) (f Str) (v Val) (id Str)) (! (= (entryKey c f v id) (scat (valKey c f v) id)) :pattern ((entryKey c f v id)))))
 (assert (forall ((id Str)) (! (=> (idOK id) (= (slen id) #x0000000000000024)) :pattern ((idOK id)))))
